@@ -432,6 +432,10 @@ func C17(tier string) {
 	r.DistinctN(int64(len(seen)))
 	tag, texts := gen.Mluc([]gen.MlucRecord{pool[1], pool[0], pool[2]}, 16, gen.MlucReverse)
 	r.Sample(map[string]interface{}{"layout": "mluc fr,en,ja reverse placement record size 16", "profile_hex": hex.EncodeToString(mlucProfile(tag)), "record_strings": texts})
+	if tier == "thorough" {
+		// configuration: 32-bit platform (the quick tier of this check, built for GOARCH=386)
+		subRunArch(r, "C17", "386")
+	}
 	r.Finish()
 }
 
